@@ -403,4 +403,74 @@ def semList (cat : Catalog) : List Q → Except Err (List IdSet)
     pure (r :: rs)
 end
 
+/-! ## the hypotheses of the optimiser theorem (C05)
+
+`hazards cat q` follows `_optimize` down the tree and lists which of the three recorded findings a
+rewrite step of this run of the optimiser meets; `OptSafe` = none.  Decidable, evaluated by the driver
+(`optsafe`).  Nothing else is excluded: well-typed trees with `OptSafe` are optimised soundly
+(`c05_optimize_sound_partial`). -/
+
+inductive Hazard where
+  | d2   -- a fold produces `NotAll`, whose `_apply` calls `applyAll`
+  | d3   -- a fold produces a comparator the index class does not implement
+  | d5   -- an Or-pairing produces `NotInRange` on a field index that has value-less documents
+deriving DecidableEq, Repr
+
+/-- every document the index knows has a value -/
+def hasValuesB : IndexT → Bool
+  | .field t => (Field.Spec.known t).all (fun d => (Field.Spec.valueOf t d).isSome)
+  | .keyword t => (kwKnown t).all (fun d => ((AMap.get t d).bind id).isSome)
+  | .text t => (kwKnown t).all (fun d => ((AMap.get t d).bind id).isSome)
+
+/-- folding the operands on index `i` into one `c` comparator -/
+def foldHazard (cat : Catalog) (i : Nat) (c : Cmp) : List Hazard :=
+  match cat[i]? with
+  | some ix => if supports ix c then (if c = .notall then [.d2] else []) else [.d3]
+  | none => [.d3]
+
+def isLowerOn (idx : Nat) (q : Q) : Bool :=
+  match lowerOf q with
+  | some (j, _, _) => j == idx
+  | none => false
+
+/-- the Or loop pairs on index `idx` exactly when the (optimised) operands contain both an `Lt/Le` and a
+`Gt/Ge` on `idx` -/
+def orPairHazard (cat : Catalog) (qs : List Q) : List Hazard :=
+  if qs.all (fun q =>
+      match upperOf q with
+      | some (idx, _, _) =>
+        !(qs.any (isLowerOn idx)) ||
+          (match cat[idx]? with
+           | some ix => hasValuesB ix
+           | none => true)
+      | none => true)
+  then [] else [.d5]
+
+def hazFuel (cat : Catalog) : Nat → Q → List Hazard
+  | 0, _ => []
+  | fuel + 1, q =>
+    match q with
+    | .cmp _ _ _ => []
+    | .range _ _ _ _ _ _ => []
+    | .not q => hazFuel cat fuel (negate q)
+    | .and qs =>
+      match foldSame .eq qs with
+      | some (i, _) => foldHazard cat i .all
+      | none =>
+        match foldSame .noteq qs with
+        | some (i, _) => foldHazard cat i .notany
+        | none => qs.flatMap (hazFuel cat fuel)
+    | .or qs =>
+      match foldSame .eq qs with
+      | some (i, _) => foldHazard cat i .any
+      | none =>
+        match foldSame .noteq qs with
+        | some (i, _) => foldHazard cat i .notall
+        | none => qs.flatMap (hazFuel cat fuel) ++ orPairHazard cat (qs.map (optFuel fuel))
+
+def hazards (cat : Catalog) (q : Q) : List Hazard := hazFuel cat (size q + 1) q
+
+/-- no rewrite of `optimize q` over `cat` meets D2, D3 or D5 -/
+def OptSafe (cat : Catalog) (q : Q) : Bool := (hazards cat q).isEmpty
+
 end Hyp.Query
